@@ -5,6 +5,7 @@ package main
 
 import (
 	"fmt"
+	"sort"
 	"strings"
 	"sync"
 
@@ -49,6 +50,16 @@ func runStream(seed uint64, yield func(), shared int, copts []arrow_record.Optio
 	r := NewRng(seed)
 	g := &OGen{r: r.Fork(), Wide: r.Chance(40), Mono: monoPick(r)}
 	options, _ := optionSet(r)
+	// the statistics a producer keeps are part of its state: a third of the streams collect them (diagnostic options) and
+	// report them at the end — they must be those of the stream run alone
+	withStats := r.Chance(35)
+	if withStats {
+		if r.Bool() {
+			options = append(options, cfgpkg.WithRecordStats())
+		} else {
+			options = append(options, cfgpkg.WithCompressionRatioStats())
+		}
+	}
 	// every allocation of the producer is a scheduling point of the cooperative scheduler
 	options = append(options, cfgpkg.WithAllocator(&yieldAllocator{inner: memory.NewGoAllocator(), yield: yield}))
 	p := arrow_record.NewProducerWithOptions(options...)
@@ -203,6 +214,22 @@ func runStream(seed uint64, yield func(), shared int, copts []arrow_record.Optio
 	if pipe == 2 {
 		close(ch)
 		<-cdone
+	}
+	if withStats {
+		func() {
+			defer func() { recover() }()
+			rs := p.RecordSizeStats()
+			var ks []string
+			for k := range rs {
+				ks = append(ks, k)
+			}
+			sort.Strings(ks)
+			line := "producer-record-stats:"
+			for _, k := range ks {
+				line += fmt.Sprintf(" %s=%d/%d", k, rs[k].TotalSize, rs[k].Dist.TotalCount())
+			}
+			out = append(out, line)
+		}()
 	}
 	return
 }
